@@ -15,6 +15,8 @@ EXPLANATION = (
 def run(rep, tier):
     kernels.oracle_self_check(rep)
     kernels.run_generators(rep, ["apply_operator_vector", "apply_operator_matrix", "reorder_vector", "reorder_matrix"])
+    from vf.pyvc import tensors
+    tensors.run_tensor_contracts(rep, ["C03"])
     cells = opcells.multi_target_cells(tier, common.seed())
     rep.bounds.update({"cells": len(cells), "operands": "every ordered duplicate-free choice among e0/e1(/e2) polarizations, Fock pairs, custom state",
                        "structures": "vf/rtc/layouts.py STRUCTS, STRUCTS3", "max_members_per_product_space": 4})
@@ -23,5 +25,7 @@ def run(rep, tier):
     from vf.rtc import morecells
     extra = [c for c in morecells.three_space_cells(tier, common.seed()) + morecells.stale_cache_cells(tier, common.seed()) if c["action"]["kind"] == "op"]
     B.run_b(rep, extra, ["C03", "C01"], tier=tier)
+    # beam splitters / expressions that have to resize their operands inside the product space first (cells shared with C11)
+    B.run_b(rep, opcells.optics_cells(tier, common.seed()), ["C03", "C11", "C01"], tier=tier, cap=120)
     rep.assume("level B compares in complex128 at 1e-8; amplitudes sampled (one seed per cell), structure enumerated",
                "jnp.einsum / reshape / kron / expm are trusted (JAX)")
